@@ -15,7 +15,7 @@ Correspondence with the Lean model (Genshi.Heap.*):
     shipped to gdrv as a heap image and the model's coroutine is stepped along the same schedule;
     the event and the context shape after every next() are compared.
 """
-import copy, json, pickle, sys, threading
+import copy, json, os, pickle, sys, threading
 from harness import proto
 from harness.framework import Result, pmap
 from harness.proto import Atom
@@ -932,11 +932,53 @@ def wire_val(v, key=None):
     return Atom('Z')
 
 
-def wire_expr(node):
-    """python ast of an expression -> wire, or None outside the modelled fragment"""
+def _fmt_pieces(fmt, n):
+    """the literal pieces of a format string that has exactly n `%s` and no other conversion"""
+    pieces = fmt.split('%s')
+    if len(pieces) != n + 1 or any('%' in p for p in pieces):
+        return None
+    return pieces
+
+
+def wire_expr(node, top=False):
+    """python ast of an expression -> wire, or None outside the modelled fragment.  `top`: the expression is the
+    iterable of py:for or a whole EXPR event -- the places where a generator object is consumed on the spot (a
+    generator expression / `map(lambda …)` anywhere else is outside the model: the object could be reached from
+    two places)"""
     import ast
     if isinstance(node, ast.Expression):
         node = node.body
+    if top and isinstance(node, ast.GeneratorExp) and len(node.generators) == 1:
+        g = node.generators[0]
+        if not g.ifs and not g.is_async and isinstance(g.target, ast.Name):
+            body, src = wire_expr(node.elt), wire_expr(g.iter)
+            if body is not None and src is not None:
+                return [Atom('gen'), body, g.target.id, src]
+        return None
+    if top and isinstance(node, ast.Call) and isinstance(node.func, ast.Name) and node.func.id == 'map' \
+            and len(node.args) == 2 and not node.keywords and isinstance(node.args[0], ast.Lambda):
+        # map() is lazy: the lambda's body runs item by item, like the body of a generator expression
+        a = node.args[0].args
+        if len(a.args) == 1 and not (a.posonlyargs or a.kwonlyargs or a.vararg or a.kwarg or a.defaults):
+            body, src = wire_expr(node.args[0].body), wire_expr(node.args[1])
+            if body is not None and src is not None:
+                return [Atom('gen'), body, a.args[0].arg, src]
+        return None
+    if isinstance(node, ast.BinOp) and isinstance(node.op, ast.Mod) and isinstance(node.left, ast.Constant) \
+            and isinstance(node.left.value, str):
+        if isinstance(node.right, ast.Tuple):
+            if len(node.right.elts) != 2:
+                return None
+            ps = _fmt_pieces(node.left.value, 2)
+            a, b = wire_expr(node.right.elts[0]), wire_expr(node.right.elts[1])
+            if ps is None or a is None or b is None:
+                return None
+            return [Atom('fmt2'), ps[0], a, ps[1], b, ps[2]]
+        ps = _fmt_pieces(node.left.value, 1)
+        a = wire_expr(node.right)
+        if ps is None or a is None:
+            return None
+        return [Atom('fmt1'), ps[0], a, ps[1]]
     if isinstance(node, ast.Name):
         return [Atom('v'), node.id]
     if isinstance(node, ast.Constant) and (node.value is None or isinstance(node.value, (bool, int, str))):
@@ -1017,7 +1059,7 @@ def wire_dir(d, num):
             var = _assign_name(d.assign)
             body = d.expr.ast.body
             if var and isinstance(body, ast.Call) and getattr(body.func, 'id', None) == 'iter' and len(body.args) == 1:
-                e = wire_expr(body.args[0])
+                e = wire_expr(body.args[0], top=True)
                 if e:
                     return [num, Atom('for'), var, e]
             return other
@@ -1137,7 +1179,7 @@ class Image(object):
                 ba = self.add_evs(sub)
                 out.append([Atom('S'), [Atom('t'), da], [Atom('t'), ba]])
             elif kind is EXPR:
-                e = wire_expr(data.ast)
+                e = wire_expr(data.ast, top=True)
                 out.append([Atom('X'), e] if e else Atom('U'))
             elif kind is INCLUDE:
                 href, cls, fb = data
@@ -1221,11 +1263,11 @@ def wire_actions(case):
     return out
 
 
-def model_request(case, variant, im=None):
+def model_request(case, variant, im=None, verb='run'):
     """the request line for gdrv; the heap image comes from a twin loader that prepared everything"""
     im = im or twin_image(case['tmpl'])
     names = template_names(case['tmpl'])
-    return proto.line(Atom('C10'), Atom('run'), proto.B(variant[0]), proto.B(variant[1]),
+    return proto.line(Atom('C10'), Atom(verb), proto.B(variant[0]), proto.B(variant[1]),
                       proto.B(bool(case['tmpl'].get('translator'))), FUEL, [im.roots[n] for n in names],
                       im.cell_list(), wire_actions(case))
 
@@ -1389,6 +1431,23 @@ def compare_model(cases, res, variant, stream='steps'):
     twins = [twin_image(c['tmpl']) for c in cases]
     lines = [model_request(c, variant, im) for c, im in zip(cases, twins)]
     answers = proto.run_lines(lines)
+    # distribution only: in how many steps of the cases with a lazily evaluated scope is the stepped render left
+    # suspended INSIDE the scope (generator object with items left) -- the window in which another render's
+    # evaluations come between two runs of one body.  Model-side measurement (verb `runlazy`).
+    lz = [(c, im) for c, im in zip(cases, twins) if c.get('lazy')]
+    if lz:
+        for (c, im), ans in zip(lz, proto.run_lines([model_request(c, variant, im, 'runlazy') for c, im in lz])):
+            if ans in ('bad-op', 'bad-line'):
+                res.disagreements.append({'stream': stream, 'case': c, 'model': ans, 'real': 'runlazy request not understood'})
+                continue
+            flags = proto.dec(ans)
+            n = sum(1 for f in flags if f in (True, 'T'))
+            owners = set(a[1] for a, f in zip(c['actions'], flags) if f in (True, 'T'))
+            res.count('model:lazy-suspended-steps', n)
+            if n:
+                res.count('model:lazy-suspended-cases')
+            if len(owners) >= 2:
+                res.count('model:lazy-suspended-in-2+-renders')
     for c, ans, im in zip(cases, answers, twins):
         if ans in ('bad-op', 'bad-line'):
             res.disagreements.append({'stream': stream, 'case': c, 'model': ans, 'real': 'request not understood'})
@@ -1412,6 +1471,8 @@ def compare_model(cases, res, variant, stream='steps'):
                 res.count('model:unmodelled')
                 for ft in c.get('lazy') or ():
                     res.count('model:unmodelled:' + ft)
+                if os.environ.get('C10_DEBUG_UNMODELLED') and c.get('lazy'):
+                    sys.stderr.write('UNMODELLED %s at %d: %s\n' % (c['lazy'], n, c['tmpl']['src']))
                 break
             res.streams[stream] = res.streams.get(stream, 0) + 1
             if act[0] == 's' and isinstance(m, list) and len(m) > 2 and isinstance(m[2], list) and m[2] and m[2][0] == 'err':
@@ -1428,16 +1489,20 @@ def compare_model(cases, res, variant, stream='steps'):
                 break
             if act[0] == 's':
                 res.count('model:step-ok')
+        else:
+            # the whole case stayed inside the model and agreed: say so per lazily evaluated construct
+            for ft in c.get('lazy') or ():
+                res.count('model:covered:' + ft)
 
 
 def gen_model_case(rng):
     # now and then a lazily evaluated nested scope (generator expression, lambda under map(), generator function
     # of a code block): the step model has no counterpart and must say so (`unmodelled`, counted), the oracle
     # judges these cases
-    lazy = rng.random() < 0.05
+    lazy = rng.random() < 0.15
     t = G.rand_template(rng, modelled=True, focus='lazy' if lazy else None)
     tspec = {'src': t['src'], 'files': t['files'], 'translator': t['translator'], 'auto_reload': True}
-    k = rng.choice([1, 2, 2, 3])
+    k = rng.choice([1, 2, 2, 3]) if not lazy else rng.choice([2, 2, 3])
     datas = [G.healthy_data(rng) if lazy else G.rand_data(rng, True, fail_bias=0.15 if rng.random() < 0.3 else 0.0)
              for _ in range(k)]
     acts = []
@@ -1446,12 +1511,16 @@ def gen_model_case(rng):
         acts.append([rng.choice(['a', 'x', 'p', 'r'])])
     for i in range(k):
         acts.append(['o', i])
-    for i in G.rand_schedule(rng, k, rng.choice([10, 25, 50, 90])):
+    # with a lazily evaluated scope in focus: long enough to get into it, half of the schedules in lock step (each
+    # render is suspended inside its generator while the others run the same body with their data)
+    sched = G.rand_schedule(rng, k, rng.choice([50, 90]), lockstep=0.5) if lazy else \
+        G.rand_schedule(rng, k, rng.choice([10, 25, 50, 90]))
+    for i in sched:
         acts.append(['s', i])
         if rng.random() < 0.06:
             acts.append([rng.choice(['x', 'a', 'p', 'r'])])
     case = {'kind': 'model', 'tmpl': tspec, 'data': datas, 'actions': acts}
-    if lazy:
+    if lazy or any(f in G.LAZY_FEATURES for f in t['features']):
         case['lazy'] = [f for f in t['features'] if f in G.LAZY_FEATURES]
     return case, t['features']
 
